@@ -582,6 +582,46 @@ func covIfaceMethods(name string, seen map[string]bool) ([]string, bool) {
 	return out, true
 }
 
+// covMethodSig: the signature of method m in the method set of the named type T or *T: declared, or promoted through an
+// embedded struct / pointer-to-struct / interface field
+func covMethodSig(t, m string, depth int) (string, bool) {
+	if fd := funcs[t+"."+m]; fd != nil {
+		return covSig(fd.Type), true
+	}
+	ts := typeSpecs[t]
+	if ts == nil || depth > 4 {
+		return "", false
+	}
+	switch tt := ts.Type.(type) {
+	case *ast.StructType:
+		for _, f := range tt.Fields.List {
+			if len(f.Names) != 0 {
+				continue
+			}
+			e := f.Type
+			if s, ok := e.(*ast.StarExpr); ok {
+				e = s.X
+			}
+			if id, ok := e.(*ast.Ident); ok {
+				if sig, ok := covMethodSig(id.Name, m, depth+1); ok {
+					return sig, true
+				}
+			}
+		}
+	case *ast.InterfaceType:
+		ms, ok := covIfaceMethods(t, map[string]bool{})
+		if ok {
+			for _, x := range ms {
+				parts := strings.SplitN(x, "\x00", 2)
+				if parts[0] == m {
+					return parts[1], true
+				}
+			}
+		}
+	}
+	return "", false
+}
+
 func covImplementers(iface string) []string {
 	ms, ok := covIfaceMethods(iface, map[string]bool{})
 	if !ok {
@@ -595,7 +635,7 @@ func covImplementers(iface string) []string {
 		all := true
 		for _, m := range ms {
 			parts := strings.SplitN(m, "\x00", 2)
-			if fd := funcs[n+"."+parts[0]]; fd == nil || covSig(fd.Type) != parts[1] {
+			if sig, ok := covMethodSig(n, parts[0], 0); !ok || sig != parts[1] {
 				all = false
 				break
 			}
